@@ -20,14 +20,14 @@ func init() {
 	fw.Register(&fw.Property{
 		ID:    "C17",
 		Level: "exploration",
-		Rule: "cases = 2-8 goroutines x 3-20 writes on ONE store (all three types, on-disk directory) with a schedule-point handler in {none, PRNG delays at write.after-append / write.after-persist / write.after-index, targeted: the writer that arrives first at write.after-append is held until another writer has passed write.after-persist, index-hold: one index rebuild is held at index.after-values while other writers proceed, index-inversion: the writer that persisted first refreshes the view only after a later writer has refreshed it}, some on a store preloaded with 120 entries; every other write goes to a key only its goroutine uses and is read back by that goroutine at once; document stores also use the batched write (PutBatch of 3 documents), in particular as the last writes of every second goroutine; one local-head write in three is slow (0.2-2 ms, 2-4 ms while a batched write is in flight), injected at the cache datastore, and if an older head is seen to land after a newer one the writers stop there so that the schedule ends with that pair; then close, reopen on the same directory and Load(-1). The arrival order at the points is recorded. " +
+		Rule: "cases = 2-8 goroutines x 3-20 writes on ONE store (all three types, on-disk directory) with a schedule-point handler in {none, PRNG delays at write.after-append / write.after-persist / write.after-index, targeted: the writer that arrives first at write.after-append is held until another writer has passed write.after-persist, index-hold: one index rebuild is held at index.after-values while other writers proceed, index-inversion: the writer that persisted first refreshes the view only after a later writer has refreshed it}, some on a store preloaded with 120 entries; every other write goes to a key only its goroutine uses and is read back by that goroutine at once; document stores also use the batched write (PutBatch of 3 documents), in particular as the last writes of every second goroutine; one local-head write in three is slow (0.2-2 ms, 2-4 ms while a batched write is in flight), injected at the cache datastore, and if an older head is seen to land after a newer one the writers stop there so that the schedule ends with that pair; then close, reopen on the same directory and Load(-1). The arrival order at the points is recorded. 'lin' cases (one in three): 3-6 goroutines x 6-14 calls mixing writes (unique values) and reads on two contended keys of one key-value / document store, or Add and full listings of one event log, every call recorded at the API boundary with call and return times of one monotonic clock, handlers {none, PRNG delays, index-hold, index-inversion}; the recorded history is checked offline by porcupine against one last-writer-wins register per key / one append-only list. " +
 			"distinct = hash(store type, goroutines, writes, handler, observed arrival-order signature); non-trivial = write calls really overlapped at the API boundary (a call started while another was in flight); the number of arrivals at write.after-append while another writer was between append and persist is reported separately",
 		Assumptions: []string{"clean close before the restart (crashes are C05)", "one store instance per identity"},
 		Cases:       c17Cases,
 		Run:         c17Run,
 		MinDistinct: map[string]int{"quick": 30, "thorough": 250},
 		Batch:       8,
-		Explain:     "oracle: every call that returned nil returned a distinct entry hash and is visible to a read issued by the same goroutine right afterwards; the listing after the writers finish contains all of them; after close, reopen and Load(-1) it still does; order extends happens-before and the view equals the replay.",
+		Explain:     "oracle: every call that returned nil returned a distinct entry hash and is visible to a read issued by the same goroutine right afterwards; the listing after the writers finish contains all of them; after close, reopen and Load(-1) it still does; order extends happens-before and the view equals the replay. lin cases: the recorded call/return history of all goroutines has a linearization (a total order respecting real time in which every read returns the latest write, a refused document delete sees an absent key, a listing equals the adds so far); a checker timeout is inconclusive.",
 	})
 }
 
